@@ -26,15 +26,20 @@ global size_of usize == 8;
 //@ replace R28 @<enum SExpParseResult {>@ => @<pub enum SExpParseResult {>@
 //@ end
 
+//@ include spec/srcloc.rs
+pub open spec fn sloc(s: SExp) -> Srcloc { match s { SExp::Nil(l) => l, SExp::Cons(l, _, _) => l, SExp::Integer(l, _) => l, SExp::QuotedString(l, _, _) => l, SExp::Atom(l, _) => l } }
 impl Srcloc {
-// proved in unit `srcloc` under its column bound; here only absence of index / underflow / non-termination in the reader is at stake,
-// so the bound is not carried through the parser state (ASSUMED: column numbers stay below usize::MAX)
+// proved in unit `srcloc` (same contract text)
 //@ extract fn ext from src/compiler/srcloc.rs in impl Srcloc
 //@ stub
+//@ sigfile r contracts/srcloc_ext.sig
 //@ end
 }
+// ASSUMED contract: except for a #-prefixed word (replaced by the primitive it names, which carries its own location) the value made from a word is located where the caller says
 //@ extract fn make_atom from src/compiler/sexp.rs
 //@ stub
+//@ sig r
+    ensures (v@.len() == 0 || v@[0] != 0x23u8) ==> sloc(r) == l
 //@ end
 //@ extract fn make_cons from src/compiler/sexp.rs
 //@ stub
@@ -43,11 +48,17 @@ impl Srcloc {
 //@ stub
 //@ end
 //@ extract fn emit from src/compiler/sexp.rs
+//@ sig r
+    ensures r == SExpParseResult::Emit(a, current_state)
 //@ end
 //@ extract fn resume from src/compiler/sexp.rs
+//@ sig r
+    ensures r == SExpParseResult::Resume(current_state)
 //@ end
 //@ extract fn error from src/compiler/sexp.rs
 //@ replace R1 @<t.to_string()>@ => @<verif_opaque_string()>@
+//@ sig r
+    ensures r is Error
 //@ end
 //@ note enlist: builds the proper list of its elements from the back; no index leaves the slice
 //@ extract fn enlist from src/compiler/sexp.rs
@@ -66,12 +77,68 @@ pub open spec fn state_rank(s: SExpParseState) -> nat
     }
 }
 
-//@ note parse_sexp_step (the reader's per-byte transition function, all 290 lines): for every state and every byte it returns (Emit, Resume or Error) without indexing outside a list, without arithmetic underflow, and its recursion on the nested state terminates (C14)
+// every location kept in the reader state has a column below usize::MAX (what Srcloc::ext needs)
+pub open spec fn st_ok(s: SExpParseState) -> bool
+    decreases s
+{
+    match s {
+        SExpParseState::Bareword(l, _) => l.col < usize::MAX,
+        SExpParseState::QuotedText(l, _, _) => l.col < usize::MAX,
+        SExpParseState::QuotedEscaped(l, _, _) => l.col < usize::MAX,
+        SExpParseState::OpenList(l, _) => l.col < usize::MAX,
+        SExpParseState::StartStructuredList(l) => l.col < usize::MAX,
+        SExpParseState::ParsingList(l, pp, _, _) => l.col < usize::MAX && st_ok(*pp),
+        SExpParseState::TermList(l, _, pp, _) => l.col < usize::MAX && st_ok(*pp),
+        _ => true,
+    }
+}
+pub open spec fn res_ok(r: SExpParseResult) -> bool { match r { SExpParseResult::Resume(st) => st_ok(st), SExpParseResult::Emit(_, st) => st_ok(st), _ => true } }
+// C15 (leaf tokens): while a word or a string is being read, the location kept in the state keeps its start (it is only
+// extended over the byte just consumed), and the leaf finally emitted carries exactly that location (a word) or that
+// location extended over the closing quote (a string)
+pub open spec fn grown(l2: Srcloc, l: Srcloc, loc: Srcloc) -> bool {
+    l2.file == l.file && sstart(l2) == pmin(sstart(l), sstart(loc)) && ple(send(l2), pmax(send(l), send(loc)))
+}
+pub open spec fn is_hash_word(s: SExpParseState) -> bool { s matches SExpParseState::Bareword(_, w) && w@.len() > 0 && w@[0] == 0x23u8 }
+pub open spec fn step_locs_ok(cur: SExpParseState, loc: Srcloc, r: SExpParseResult) -> bool {
+    match cur {
+        SExpParseState::Bareword(l, _) => l.file == loc.file ==> match r {
+            SExpParseResult::Resume(SExpParseState::Bareword(l2, _)) => grown(l2, l, loc),
+            SExpParseResult::Emit(o, _) => is_hash_word(cur) || sloc(*o) == l,
+            _ => true,
+        },
+        SExpParseState::QuotedText(l, _, _) => l.file == loc.file ==> match r {
+            SExpParseResult::Resume(SExpParseState::QuotedText(l2, _, _)) => l2 == l,
+            SExpParseResult::Resume(SExpParseState::QuotedEscaped(l2, _, _)) => l2 == l,
+            SExpParseResult::Emit(o, _) => grown(sloc(*o), l, loc),
+            _ => true,
+        },
+        SExpParseState::QuotedEscaped(l, _, _) => match r {
+            SExpParseResult::Resume(SExpParseState::QuotedText(l2, _, _)) => l2 == l,
+            _ => true,
+        },
+        // a token starts at the byte that opens it
+        SExpParseState::Empty => match r {
+            SExpParseResult::Resume(SExpParseState::Bareword(l2, _)) => l2 == loc,
+            SExpParseResult::Resume(SExpParseState::QuotedText(l2, _, _)) => l2 == loc,
+            SExpParseResult::Resume(SExpParseState::OpenList(l2, _)) => l2 == loc,
+            _ => true,
+        },
+        _ => true,
+    }
+}
+
+//@ note parse_sexp_step (the reader's per-byte transition function, all 290 lines): for every state and every byte it returns (Emit, Resume or Error) without indexing outside a list, without arithmetic underflow, and its recursion on the nested state terminates, and every location it hands to Srcloc::ext satisfies ext's column bound given that the state's locations do (C14); a word or string being read keeps the start of its location, which is only extended over the byte just consumed, and the leaf finally emitted carries that location (C15)
 //@ extract fn parse_sexp_step from src/compiler/sexp.rs
 //@ canary index_last_of_empty @<if list_content.len() == 1 {>@ => @<if list_content.len() <= 1 {>@
+//@ canary word_located_at_its_end @<Rc::new(make_atom(srcloc.clone(), word_so_far.to_vec())),>@ => @<Rc::new(make_atom(loc.clone(), word_so_far.to_vec())),>@
 //@ replace all R45 @<for item in list_copy.iter().rev() {>@ => @<let mut verif_i: usize = list_copy.len(); while verif_i > 0 invariant verif_i <= list_copy.len() decreases verif_i { verif_i = verif_i - 1; let item = &list_copy[verif_i];>@
 //@ sig r
+    requires st_ok(*current_state), loc.col < usize::MAX
+    ensures res_ok(r), step_locs_ok(*current_state, loc, r),
     decreases state_rank(*current_state)
+//@ before stmt @<match current_state {>@
+    proof { reveal_with_fuel(st_ok, 3); }
 //@ end
 }
 fn main() {}
